@@ -697,9 +697,11 @@ def method_call(self, st, base, attr, args, node):
                 self.write_field(s, base, cls, "map", Val(newmap, mp.ty), line)
                 yield s, Val(z3.IntVal(0), "none")
                 return
-            if attr == "update" and len(args) == 1 and is_ref(args[0].ty) and args[0].ty[1] == cls:
-                nk = self.read_field(st, args[0], cls, "keys")
-                nm = self.read_field(st, args[0], cls, "map")
+            if attr == "update" and len(args) == 1 and is_ref(args[0].ty) and args[0].ty[1].startswith("dict_") \
+                    and models.CLASSES[args[0].ty[1]]["fields"] == models.CLASSES[cls]["fields"]:
+                # receiver known to be empty: it becomes a copy of the argument
+                nk = self.read_field(st, args[0], args[0].ty[1], "keys")
+                nm = self.read_field(st, args[0], args[0].ty[1], "map")
                 s = st.fork()
                 self.write_field(s, base, cls, "keys", Val(nk.t, ks.ty), line)
                 self.write_field(s, base, cls, "map", Val(nm.t, mp.ty), line)
